@@ -38,3 +38,16 @@ Definition z_case (f tol : float) (has_ground : bool) (os : list (@obj FNum)) (r
   let zps := map (zpulse_of os radii) (tp_pulses t) in
   let Z := zmatrix_code (f_w f) (f_srm f) (f_w2 f) (connected (tp_status t)) zps has_ground in
   flat_map (fun row => flat_map (fun z => [fst z; snd z]) row) Z.
+
+From PM Require Import Model.NearField.
+(* stage `nf`: near field at the given points *)
+Definition nf_case (f tol : float) (has_ground : bool) (os : list (@obj FNum)) (radii : list float)
+           (cur : @cvec FNum) (power pwr : float) (pts : list (@V3 FNum)) : list float :=
+  let t := build tol os in
+  let zps := map (zpulse_of os radii) (tp_pulses t) in
+  let s0 := PrimFloat.mul 0.001 (f_wavelen f) in
+  flat_map (fun obs =>
+    let r := near_field (f_w2 f) (psi (f_w f) (f_srm f)) (f_m f) s0 power pwr has_ground zps cur obs in
+    let e := fst r in let h := snd r in
+    [fst (fst (fst e)); snd (fst (fst e)); fst (snd (fst e)); snd (snd (fst e)); fst (snd e); snd (snd e);
+     fst (fst (fst h)); snd (fst (fst h)); fst (snd (fst h)); snd (snd (fst h)); fst (snd h); snd (snd h)]) pts.
